@@ -31,10 +31,10 @@ CHECKS = {
          "Held on the executions observed: for every batch method the batch call and the documented single calls leave equal worlds, counts, Q-query contents and (for creation) handle sequences.",
          "An empty batch exchange may return 0 (documented as 'affected entities')."),
  "C09": ("fault_enumeration", "4 C09", "lock ledger (trace monitor) + enumeration of every structural entry point x lock source x release path with before/after snapshots",
-         "Every row of the entry-point table (36 ID-based rows) is exercised in every run under every lock source (plain, cached, batch-result, nested up to the limit, removal callback) and must panic leaving public snapshot + hidden digest unchanged; the lock ledger is compared after every open/release; world states are sampled.",
+         "Every row of the entry-point table (36 ID-based rows) is exercised in every run under every lock source (plain, cached, batch-result, nested up to the limit, removal callback) and must panic leaving public snapshot + hidden digest unchanged; the lock ledger is compared after every open/release and, in mode ledger, after every operation under restricted listeners; world states are sampled.",
          "World states at which locks are taken are sampled; generic entry points route through the same core functions and are exercised by C18."),
  "C10": ("fault_enumeration", "4 C10", "fault table of illegal-argument classes x operations injected at sampled states, with full before/after snapshot equality for single-entity operations",
-         "Every row of the fault table (88 rows + 4 batch-query probes) is exercised in every run; each call must panic; single-entity failures must leave the public snapshot, the hidden core digest and the invariants unchanged, and the history continues under the model.",
+         "Every row of the fault table (89 rows + 4 batch-query probes) is exercised in every run; each call must panic; single-entity failures must leave the public snapshot, the hidden core digest and the invariants unchanged, and the history continues under the model.",
          "World states are sampled; batch operations are only required to panic."),
  "C11": ("exploration", "4 C11", "offline trace checker over the recorded listener event stream against the model's per-entity before/after diff",
          "Held on the executions observed: exactly one truthful event per changed entity, none otherwise, with the documented delivery timing for single, batch and Q-variant operations.",
@@ -60,8 +60,8 @@ CHECKS = {
  "C18": ("exploration", "4 C18", "differential: generic call on world G vs documented ID-based call on lock-step twin K, plus model and per-position pointer comparison",
          "Held on the executions observed: for arities 0-12 (two instantiations each) generic calls equal their ID-based equivalents in handles, counts, Q-query contents, events and state; QueryN.Get/MapN.Get return the declared component per position; FilterN selections equal the composed core filter for random builder-call orders before and between queries, registered or not.",
          "Optional together with Exclusive is don't-care; type parameters are G0..G(N-1) / RelA,G1.. at shuffled IDs."),
- "C19": ("exploration", "4 C19", "Go race detector over concurrently driven worlds + solo-vs-concurrent transcript comparison",
-         "Held on the executions observed: no race report and no cross-talk with 8 (32) goroutines each driving its own worlds through full-mix histories that reach every op kind from at least two goroutines.",
+ "C19": ("exploration", "4 C19", "Go race detector over concurrently driven worlds (own state, one shared dump, shared caller-owned filters/listeners/values) + solo-vs-concurrent transcript comparison",
+         "Held on the executions observed: no race report and no cross-talk with 8 (32) goroutines each driving its own worlds through full-mix and generic-API histories (concurrent phase first, so package-level state is cold), with 6 worlds loaded from one shared dump, and with 6 worlds sharing caller-owned filters, a Dispatch listener and component values.",
          "The race detector only sees code paths that two goroutines actually reach."),
  "C20": ("exploration", "4 C20", "map-model oracle for resources by exact pointer through all three access paths after every step, with strict add/remove faults",
          "Held on the executions observed: Has/Get through Resources, generic.Resource and GetResource equal the model after every step, independent of entity operations, locks and other resource types; strict add/remove panic without effect; Reset clears.",
